@@ -1180,7 +1180,8 @@ def call_omits_rs(f, call, method):
         if k.arg == RS_PARAM:
             return isinstance(k.value, ast.Constant) and k.value.value is None
         if k.arg is None:
-            return False   # **kwargs: trusted to carry random_state when the callee needs it (blind spot, listed)
+            AUDIT["kwargs_calls_to_random_state_callees"] += 1
+            return False   # **kwargs: trusted to carry random_state when the callee needs it (blind spot, counted)
     if idx >= 0:
         eff_idx = idx - 1 if (method and f.cls is not None and not is_static(f)) else idx
         if any(isinstance(a, ast.Starred) for a in call.args):
@@ -1189,6 +1190,9 @@ def call_omits_rs(f, call, method):
             a = call.args[eff_idx]
             return isinstance(a, ast.Constant) and a.value is None
     return True
+
+
+AUDIT = {"kwargs_calls_to_random_state_callees": 0}
 
 
 def looks_like_rs(e):
@@ -1212,6 +1216,7 @@ def is_static(f):
 # driver of the analysis
 # ---------------------------------------------------------------------------------------------------------
 def analyze(repo):
+    AUDIT["kwargs_calls_to_random_state_callees"] = 0
     A = Analysis(repo)
     for r in ROOT_MODULES:
         if A.load(r) is None:
@@ -1570,6 +1575,16 @@ def emit(A, out_path, sidecar_path=None):
                             min([f.node.lineno] + [d.lineno for d in f.node.decorator_list]),
                             getattr(f.node, "end_lineno", f.node.lineno), f.fid] for f in A.funcs.values()},
             tests={str(tid): key for key, (tid, _) in A.tests.items()},
+            # self-audit of the blind spots (lands in evidence/C11.json notes on every run)
+            audit=dict(
+                dynamic_attr_sites_in_closure=sum(1 for e in A.effs if e[1] == "DynamicAttr"),
+                dynamic_attr_sites_reachable={c: sum(1 for (nd, kind, l, w) in effs if kind == "DynamicAttr"
+                                                     and nd in reach(edges, roots[c], offs[c])) for c in cfgs},
+                dynamic_code_sites_in_closure=sum(1 for e in A.effs if e[1] == "DynamicCode"),
+                calls_through_callable_valued_locals=A.stats["unresolved_local_calls"],
+                kwargs_calls_to_random_state_callees=AUDIT["kwargs_calls_to_random_state_callees"],
+                functions_with_random_state_parameter=sum(1 for f in A.funcs.values() if f.did is not None),
+                modules=len(A.mods), functions=len(A.funcs), classes=len(A.classes)),
             stats=dict(A.stats, nodes=len(A.nodes), edges=len(edges), effs=len(effs),
                        functions=len(A.funcs), classes=len(A.classes)),
         )
@@ -1643,6 +1658,11 @@ def generate(ctx=None, repo=None, out=None, sidecar=None):
     if ctx is not None:
         ctx.notes.append("translator: %s" % json.dumps(dict(A.stats, nodes=len(A.nodes), edges=len(res["edges"]),
                                                            effs=len(res["effs"]))))
+        try:
+            ctx.notes.append("translator self-audit (blind spots, counted on this run): %s" % json.dumps(
+                json.load(open(sidecar or s))["audit"], sort_keys=True))
+        except Exception:
+            pass
     return A, res
 
 
